@@ -216,6 +216,96 @@ theorem simpleagg_eq_hashagg_nokeys_first_unsound :
     chunkPathVal .first .i32 [([.null, .i32 5], [0, 5])] ≠ rowPathVal .first [.null, .i32 5] := by decide
 
 
+/-- LEFT OUTER nested-loop join: the remembered bitmap of the windowed cross product, read back
+with the index arithmetic `filter[i + |L|·j]`, finds exactly the unmatched left rows; the result
+is the bag of the spec's left outer join, for every chunking of both inputs. -/
+theorem nl_eq_spec_left_outer (on : Pred) (nL nR : Nat) (Ls Rs : List Chunk) :
+    (flat (nlJoin true on nR Ls Rs)).Perm (joinRel .leftOuter on nL nR (flat Ls) (flat Rs)) := by
+  unfold nlJoin joinRel
+  simp only [if_true]
+  have hf : ∀ (a b : List Chunk), flat (a ++ b) = flat a ++ flat b := by intro a b; simp [flat]
+  rw [hf, flat_map_filter, flat_emit, flat_emit, nlUnmatched_spec]
+  refine Perm.trans ?_ (leftJoin_perm_decomp on nR (flat Ls) (flat Rs)).symm
+  refine Perm.append_right _ ?_
+  unfold innerJoin matchesOf
+  exact cross_swap_perm (fun l r => l ++ r) (fun row => holds (on row)) (flat Ls) (flat Rs)
+
+example : (flat (nlJoin true (fun r => sqlEq (r.getD 0 .null) (r.getD 1 .null)) 1 [[[.i32 1], [.null]], [[.i32 2]]] [[[.i32 1]], [[.null], [.i32 1]]])).Perm
+    [[.i32 1, .i32 1], [.i32 1, .i32 1], [.null, .null], [.i32 2, .null]] := by decide
+
+/-! ## chunk boundaries of the inputs are irrelevant (1024-row boundary included) -/
+
+theorem chunking_irrelevant_nljoin (outer : Bool) (on : Pred) (nR k k' : Nat) (Ls Rs : List Chunk) :
+    nlJoin outer on nR (rechunk k Ls) (rechunk k' Rs) = nlJoin outer on nR Ls Rs := by
+  unfold nlJoin; simp only [flat_rechunk]
+
+theorem chunking_irrelevant_hashjoin (t : JoinType) (lk rk : List (Row → Val)) (nL nR k k' : Nat) (Ls Rs : List Chunk) :
+    hashJoin t lk rk nL nR (rechunk k Ls) (rechunk k' Rs) = hashJoin t lk rk nL nR Ls Rs := by
+  unfold hashJoin; simp only [flat_rechunk]
+
+theorem chunking_irrelevant_mergejoin (t : JoinType) (lk rk : List (Row → Val)) (nL nR k k' : Nat) (Ls Rs : List Chunk) :
+    mergeJoin t lk rk nL nR (rechunk k Ls) (rechunk k' Rs) = mergeJoin t lk rk nL nR Ls Rs := by
+  unfold mergeJoin; simp only [flat_rechunk]
+
+theorem chunking_irrelevant_order (ks : List OrderKey) (k : Nat) (Xs : List Chunk) :
+    orderExec ks (rechunk k Xs) = orderExec ks Xs := by
+  unfold orderExec; rw [flat_rechunk]
+
+theorem chunking_irrelevant_topn (n off : Nat) (ks : List OrderKey) (k : Nat) (Xs : List Chunk) :
+    topNExec n off ks (rechunk k Xs) = topNExec n off ks Xs := by
+  unfold topNExec; rw [flat_rechunk]
+
+theorem chunking_irrelevant_hashagg (ks : List (Row → Val)) (aggs : List XAgg) (k : Nat) (Xs : List Chunk) :
+    hashAgg ks aggs (rechunk k Xs) = hashAgg ks aggs Xs := by
+  unfold hashAgg; rw [flat_rechunk]
+
+theorem chunking_irrelevant_sortagg (ks : List (Row → Val)) (aggs : List XAgg) (k : Nat) (Xs : List Chunk) :
+    sortAgg ks aggs (rechunk k Xs) = sortAgg ks aggs Xs := by
+  unfold sortAgg; rw [flat_rechunk]
+
+theorem chunking_irrelevant_semijoin (anti : Bool) (on : Pred) (k k' : Nat) (Ls Rs : List Chunk) :
+    nlSemiJoin anti on (rechunk k Ls) (rechunk k' Rs) = nlSemiJoin anti on Ls Rs := by
+  unfold nlSemiJoin
+  rw [flat_rechunk]
+  congr 2
+  funext l
+  rw [any_flat, any_flat]
+  have := flat_rechunk k' Rs
+  unfold flat at this
+  rw [this]
+
+theorem chunking_irrelevant_hashsemijoin (anti : Bool) (lk rk : List (Row → Val)) (k k' : Nat) (Ls Rs : List Chunk) :
+    flat (hashSemiJoin anti lk rk (rechunk k Ls) (rechunk k' Rs)) = flat (hashSemiJoin anti lk rk Ls Rs) := by
+  unfold hashSemiJoin
+  rw [flat_map_filter, flat_map_filter, flat_rechunk, flat_rechunk]
+
+/-- FULL statement for the simple aggregation (false): the chunk path looks at chunks.  An empty
+stream and a stream of one empty chunk (what a filter leaves of an all-filtered chunk) have the
+same rows but SUM is NULL for the first and 0 for the second; `first`/`last` see chunk ends. -/
+theorem chunking_irrelevant_simpleagg_unsound :
+    ¬ (∀ (aggs : List XAgg) (k : Nat) (Xs : List Chunk), simpleAgg aggs (rechunk k Xs) = simpleAgg aggs Xs) := by
+  intro h
+  have := h [{ kind := .sum, arg := fun r => r.getD 0 .null, ty := .i32 }] 0 []
+  revert this; decide
+
+/-- … it holds for COUNT(*) … (rows are counted chunk by chunk). -/
+theorem chunkpath_rowcount (cols : List (List Val × List Int)) :
+    chunkPathVal .rowCount .i32 cols = .i32 ((cols.flatMap (·.1)).length) := by
+  unfold chunkPathVal initAgg
+  suffices h : ∀ (n : Nat), (cols.foldl (fun st c => evalAgg .rowCount .i32 st c.1 c.2) (.value (.i32 n))).result =
+      .i32 ((n + (cols.flatMap (·.1)).length : Nat)) by
+    have := h 0; simpa using this
+  induction cols with
+  | nil => intro n; simp [AggState.result]
+  | cons c cs ih =>
+    intro n
+    have step : evalAgg .rowCount .i32 (.value (.i32 n)) c.1 c.2 = .value (.i32 ((n + c.1.length : Nat))) := by
+      simp only [evalAgg, addExt, Val.isNull, plusVal, Bool.false_eq_true, if_false, Option.getD_some]
+      congr 2
+    rw [List.foldl_cons, step, ih]
+    simp only [List.flatMap_cons, List.length_append]
+    congr 2; omega
+
 /-! ## the executors compute exactly the path values -/
 
 theorem zip_map_self {α β γ} (as : List α) (g : α → β) (f : α × β → γ) :
